@@ -1,5 +1,6 @@
 pub mod defrag;
 pub mod errp;
+pub mod extchain;
 pub mod gen;
 pub mod guard;
 pub mod proj;
